@@ -401,6 +401,54 @@ def attachedValue (reg : List Nat) (name data : Nat) : Val :=
 /-- `luaL_checkudata(L, i, name)` -/
 def demands (name : Nat) (v : Val) : Bool := v.ty == .userdata && v.cls == name
 
+/-! ### which class a class argument means (`find_lua_classes`, `class_arg_pop`)
+
+`find_lua_classes` walks the visited scopes and stores every wrapped class in the dict `lua_classes` under
+`cls.typemap.name`, the fully qualified C++ name (`inner::Node`), here the list of its interned components.
+A Python dict keeps one value per key: a later insert under an equal key replaces the earlier one.
+`class_arg_pop` looks the argument's `typemap.name` up: a hit gives the userdata struct and the metatable
+name of THAT class; a miss is "a class wrapped by another library": the default metatable name built from
+the last component, and the userdata read as a bare object pointer.  `keyOf` is what both sites use as key
+(the identity on the current code; `unqualKey` is the unqualified name, kept for the negation witness). -/
+
+abbrev QName := List Nat
+
+/-- dict lookup after the inserts `tbl` (in order): the last entry with the key -/
+def dictGet {α : Type} : List (QName × α) → QName → Option α
+  | [], _ => none
+  | (k, v) :: rest, x =>
+    match dictGet rest x with
+    | some w => some w
+    | none => if k = x then some v else none
+
+/-- the dict after `find_lua_classes`: key of the i-th visited class -> i -/
+def luaClassesFrom (keyOf : QName → QName) (i : Nat) : List QName → List (QName × Nat)
+  | [] => []
+  | q :: qs => (keyOf q, i) :: luaClassesFrom keyOf (i + 1) qs
+
+/-- what a class argument is read as -/
+inductive ArgClass
+  | own (idx : Nat)          -- userdata struct and metatable of the idx-th wrapped class of this library
+  | foreign (short : Nat)    -- default metatable name of the unqualified name; bare object pointer
+  deriving DecidableEq, Repr
+
+def classArgPopBy (keyOf : QName → QName) (classes : List QName) (ty : QName) : ArgClass :=
+  match dictGet (luaClassesFrom keyOf 0 classes) (keyOf ty) with
+  | some i => .own i
+  | none => .foreign (ty.getLast?.getD 0)
+
+/-- the current code: both sites use the typemap name itself -/
+def classArgPop (classes : List QName) (ty : QName) : ArgClass := classArgPopBy id classes ty
+
+/-- a keying by the unqualified class name (`cls.name` / last `::` component) -/
+def unqualKey (q : QName) : QName := match q.getLast? with | some n => [n] | none => []
+
+/-- the metatable name a class argument of type `ty` demands (`none`: not a class of this library) -/
+def argDemandedByName (names : List QName) (classes : List ClassD) (ty : QName) : Option Nat :=
+  match classArgPop names ty with
+  | .own i => argDemanded classes i
+  | .foreign _ => none
+
 /-! ### the namespace tree
 
 `wrap_namespace(node)` handles the classes of `node`, then its functions, then calls itself for every
